@@ -296,7 +296,7 @@ RULES = {
     'C14': 'histories over <=4 slots of create (5 back ends, many shapes), failing create (7 kinds), destroy, destroy of dead descriptors, use (encode/decode/reconstruct vs reference), probe of 12 entry points with a dead descriptor, and presets of the exported descriptor counter to INT_MAX-3..INT_MAX; after EVERY step a behavioural scan of the registry (size query on every descriptor ever seen +-2, 1..8 and INT_MAX-8..INT_MAX after a preset) must equal the model and every live instance must round-trip; plus all sequences over a 12-symbol alphabet to depth 5 (quick) / 6 (thorough). Non-trivial: two live instances of one back end at some point and a non-LIFO destroy or a counter wrap.',
     'C15': 'histories mixing encode/decode/reconstruct/metadata/validation/failing calls/other instances/encode on a fresh thread; at the end every kept stripe is decoded, reconstructed and re-encoded with all inputs (data, every fragment, the pointer array) on PROT_READ pages flush against PROT_NONE pages (end- or start-flush, aligned and unaligned); every encode output must equal the independent serializer (a pure function of configuration and data); plus a sweep under guard pages: every flat-XOR table x every erasure set below hd (decode + reconstruct of each lost index; aligned inputs ending exactly at the guard page, start-flush, and unaligned) and every RS/ISA-L shape with |E|=m. Non-trivial: same (configuration, data) encoded at two points of the history and a rebuild happened.',
     'C16': 'histories (<=300 steps) mixing valid calls with cleanup, beyond-tolerance/duplicated/insufficient sets, damaged headers, invalid arguments, failing creates and dead-descriptor probes; ASan reports double free / use-after-free at once, LeakSanitizer recoverable check after destroying all instances at the end of each history; plus one encode/decode/cleanup/destroy + leak check per shape. Non-trivial: at least one failing call and one successful rebuild in the history.',
-    'C17': 'fault enumeration: the back end operation tables are patched with wrappers that fail chosen call numbers (three modes: fail before the work, do the work then report failure, another negative code). Enumerated: a scripted workload (create, 3 encodes, decode with lost data / lost parity, reconstruct data / parity, 2 fragments_needed, second create, destroy, encode, decode) per back end x every call position of init/encode/decode/reconstruct/fragments_needed x 3 modes; generated: random workloads with random fault sets. Oracle: public rc<0 for the faulted call, no cleanup call made and LeakSanitizer clean, immediate retry succeeds with exact results, registry usable, plugin dlopen reference returned. Non-trivial: at least one injected fault was reached.',
+    'C17': 'fault enumeration: the back end operation tables are patched with wrappers that fail chosen call numbers (three modes: fail before the work, do the work then report failure, another negative code). Enumerated: a scripted workload (create, 3 encodes, decode with lost data / lost parity, reconstruct data / parity, 2 fragments_needed, second create, destroy, encode, decode, three naturally failing flat-XOR rebuilds with hd..hd+1 fragments lost) per back end x every call position of init/encode/decode/reconstruct/fragments_needed x 3 modes; generated: random workloads with random fault sets. Oracle: public rc<0 for the faulted call, no cleanup call made and LeakSanitizer clean, immediate retry succeeds with exact results, registry usable, plugin dlopen reference returned. Non-trivial: at least one injected fault was reached.',
     'C19': 'both ISA-L adapters on the clean-room libisal.so.2: enumerated - every (k,m) with k+m<=8 (quick) / 12 (thorough), every erasure set |E|<=m+1, decode + reconstruct of every lost index and one present index, two table encodings of the stand-in (adapter must treat tables as opaque); generated - all shapes to k+m=32 with permutations/duplicates/alignment; injected inversion failures (the stand-in fails the next gf_invert_matrix call): public call must fail, LeakSanitizer clean, retry exact; fragments_needed for the adapters with the C06 oracle. Oracle: exact when the first k surviving generator rows are invertible over GF(2^8) (independent model), error when the survivors have rank < k, either when only another subset is invertible. Non-trivial: a data fragment erased or a lost destination rebuilt; an inversion failure actually injected.',
     'C18': 'tier 1 (ThreadSanitizer): generated workloads of 2..16 threads released by a barrier, each thread running its own create/use/destroy cycles of mixed back ends (concurrent first-ever RS creates are generated on purpose), held instances, and encode/decode/reconstruct/queries on 0..2 shared descriptors, with generated yield paddings; oracle: no TSan report during the workload, every result equals the sequential reference (independent serializer / original data), descriptors of overlapping lifetimes distinct, shared instances intact afterwards. tier 2 (controlled schedules under ASan, guarded yield hooks): see per_mode c18_sched*. Non-trivial: >=2 threads with at least one operation each.',
     'C20': 'rapidcheck-generated (configuration with CRC32, data, presented multiset, damaged subset: payload bit flips, re-sealed header field edits, unsealed header damage), decode with force=1. Non-trivial: at least one damaged DATA fragment.',
